@@ -89,6 +89,50 @@ void Ctx::c04() {
             fail("C04", "ack_type_mismatch", "conn " + std::to_string(r.conn) + ": " + ptype_name(r.pkt.type) + " for a QoS " + std::to_string(pub->pkt.qos) + " PUBLISH (pid " + std::to_string(r.pkt.pid) + ")");
     }
 
+    // wire, promptness on a healthy connection: the FIRST transmission of a QoS 1/2 PUBLISH, and a PUBREL whose PUBREC travelled on
+    // this very connection, must be acknowledged (PUBACK / PUBREC / PUBCOMP) within 10 s when the connection stays up and untouched
+    // by any injected fault for those 10 s and nothing stalls. (Acknowledgements are neither throttled nor do they wait for the
+    // application; the known inbound defects K1-K5, K8, K9 all need a retransmission or a second connection and are not in scope.)
+    {
+        constexpr ns_t T = 10 * SEC;
+        ns_t run_end = s.suffix_end_t ? s.suffix_end_t : s.w.now;
+        for (auto& m : s.marks) if (m.kind == MarkKind::teardown_begin || m.kind == MarkKind::destroy || m.kind == MarkKind::cancel_client || m.kind == MarkKind::disconnect_init) run_end = std::min(run_end, m.t);
+        for (auto& sp : B.sent) {
+            if (sp.hostile || !sp.delivered_seq || sp.msg < 0 || sp.msg >= (int)B.msgs.size()) continue;
+            if (sp.pkt.type != PUBLISH && sp.pkt.type != PUBREL) continue;
+            if (sp.pkt.type == PUBLISH && sp.pkt.qos == 0) continue;
+            auto& m = B.msgs[sp.msg];
+            auto* nc = s.net.conn(sp.conn);
+            if (!nc || nc->fault_injected || nc->transport_fault || nc->blackhole || m.session_lost) continue;
+            if (B.knobs.dup_ack_p > 0) continue;
+            ns_t end = run_end;
+            if (nc->client_closed) end = std::min(end, nc->client_close_time);
+            if (nc->dead) end = std::min(end, nc->t_dead);
+            if (nc->broker_closed) end = std::min(end, nc->t_broker_closed);
+            if (sp.delivered_t + T > end) continue;
+            bool stalled = false;
+            for (auto& mk : s.marks) if (mk.kind == MarkKind::stall && mk.t >= sp.delivered_t - 30 * SEC && mk.t <= sp.delivered_t + T) stalled = true;
+            if (stalled) continue;
+            uint8_t want;
+            if (sp.pkt.type == PUBLISH) {
+                if (m.sends != 1 || sp.pkt.dup) continue;
+                want = sp.pkt.qos == 1 ? PUBACK : PUBREC;
+            } else {
+                if (m.pubrel_idx.size() != 1 || m.sends != 1) continue;
+                bool pubrec_here = false;
+                for (auto& r : B.recv) if (r.decode_err.empty() && r.pkt.type == PUBREC && r.pkt.pid == sp.pkt.pid && r.conn == sp.conn && r.seq > m.first_send_seq && r.seq < sp.seq) pubrec_here = true;
+                if (!pubrec_here) continue;
+                want = PUBCOMP;
+            }
+            bool acked = false;
+            for (auto& r : B.recv) if (r.decode_err.empty() && r.pkt.type == want && r.pkt.pid == sp.pkt.pid && r.conn == sp.conn && r.seq > sp.delivered_seq && r.t <= sp.delivered_t + T) acked = true;
+            if (!acked)
+                fail("C04", sp.pkt.type == PUBREL ? "pubrel_not_answered_promptly" : "publish_not_acknowledged_promptly",
+                     "conn " + std::to_string(sp.conn) + ": " + packet_str(sp.pkt) + " of message " + std::to_string(m.id) + " was delivered at t=" + std::to_string(sp.delivered_t / 1000000) +
+                     " ms on a connection that stayed up and fault-free for 10 more seconds, but no " + ptype_name(want) + " came within them");
+        }
+    }
+
     // application side
     struct Deliv { int msg; uint64_t seq; const Done* d; };
     std::vector<Deliv> delivs;
